@@ -111,14 +111,18 @@ StrOctet(c, i) ==
       [] c = 2 -> <<39, 34, 92, 32, 120>>[((i - 1) % 5) + 1]
       [] c = 3 -> <<233, 65, 32, 252>>[((i - 1) % 4) + 1]
       [] c = 4 -> 255
-StrPattern(c, nbytes) == OctetsToBits([i \in 1..nbytes |-> StrOctet(c, i)])
+      [] c = 5 -> IF i <= 2 THEN <<86, 72>>[i] ELSE 32                      \* "VH" then blanks
+      [] c = 6 -> IF i = 1 THEN 32 ELSE IF i <= 3 THEN <<86, 72>>[i - 1] ELSE 32   \* the same text one place to the right
+(* classes 5 and 6 are the same text at different offsets (equal once blanks are stripped on both sides, different
+   as field contents); fields shorter than three octets take the lettered class instead *)
+StrPattern(c, nbytes) == OctetsToBits([i \in 1..nbytes |-> StrOctet(IF c >= 5 /\ nbytes < 3 THEN 1 ELSE c, i)])
 
 (* the pattern chosen for subset s at output position idx.  w0 is the width the element has in Table B: a
    field that an operator has WIDENED (w0 < w) takes a sixth class, the all-ones pattern of the table width -
    a value that is not missing in the field as it stands *)
 Cls6(idx, s) == ClsOf(idx, s, 6)
 Pattern(t, w, idx, s, w0) ==
-    IF t = "str" THEN StrPattern(Cls(idx, s), w \div 8)
+    IF t = "str" THEN StrPattern(ClsOf(idx, s, 7), w \div 8)
     ELSE IF t = "ref"
          THEN LET c == Cls(idx, 1) IN ClassPattern(IF c = 2 THEN 1 ELSE c, w)   \* no negative zero; same for all subsets
     ELSE IF t = "num" /\ w0 >= 1 /\ w0 < w
